@@ -1299,6 +1299,10 @@ func fixedCases() []caseT {
 			// K07j: a struct embedding a pointer to itself, directly and through another struct
 			caseT{V31: v31, Ops: []opT{{Ctor: "GET", Path: "/j", Resps: ok(ct("pa.SelfEmb"))}}},
 			caseT{V31: v31, Ops: []opT{{Ctor: "GET", Path: "/j", Resps: ok(ct("pb.EmbA"))}}},
+			// further hand-written shapes: embedded generic instantiations, unexported embedded struct,
+			// embedded interfaces, nested containers
+			caseT{V31: v31, Ops: []opT{{Ctor: "GET", Path: "/shapes", Resps: []respT{{200, ct("pa.EmbGen")}, {201, ct("pa.EmbHidden")},
+				{202, ct("pb.EmbIface")}, {203, ct("pa.Deep")}}}}},
 			// boundaries
 			caseT{V31: v31},
 			caseT{V31: v31, Ops: []opT{{Ctor: "GET", Path: "/u/:id"}, {Ctor: "GET", Path: "/u/:id"}}},
